@@ -856,32 +856,18 @@ func (s *scanner) ReadStreamData(dict Dict) (stm *Stream, err error) {
 	}, nil
 }
 
-// trimTrailingEOL returns length with any single trailing \n, \r, or
-// \r\n removed.  The bytes before "endstream" are an EOL per spec
-// (PDF 7.3.8.2) and must not be considered part of the stream
-// content.
+// trimTrailingEOL completes the removal of the EOL marker which precedes
+// "endstream" (PDF 7.3.8.2) when the stream extent was recovered by
+// searching for endstreamPat.  The pattern consumes one EOL byte, so
+// length ends just before that byte.  The only thing left to remove is
+// the \r of a \r\n marker; any other trailing EOL is stream content.
 func trimTrailingEOL(r io.ReaderAt, start, length int64) int64 {
 	if length <= 0 {
 		return length
 	}
 	var probe [2]byte
-	readAt := start + length - int64(len(probe))
-	readLen := len(probe)
-	if readAt < start {
-		readAt = start
-		readLen = int(length)
-	}
-	n, _ := r.ReadAt(probe[:readLen], readAt)
-	if n == 0 {
-		return length
-	}
-	switch probe[n-1] {
-	case '\n':
-		length--
-		if n >= 2 && probe[n-2] == '\r' {
-			length--
-		}
-	case '\r':
+	n, _ := r.ReadAt(probe[:], start+length-1)
+	if n == len(probe) && probe[0] == '\r' && probe[1] == '\n' {
 		length--
 	}
 	return length
